@@ -68,7 +68,23 @@ SCENARIOS = {
                    _ap([1, 1], aff='web', prio=5, limits={'rack': 1}),
                    _ap([1, 1], aff='db', prio=7, limits={'pod': 1}),
                    _ap([1, 1], aff='kv', prio=6, limits={'rack': 1, 'cell': 2}, alloc='y'),
-                   _ap([1, 1], aff='bg', prio=2)],
+                   _ap([1, 1], aff='bg', prio=2),
+                   # one affinity at two priorities, limited per SERVER: the higher one
+                   # can only take the lower one's place
+                   _ap([1, 1], aff='idx', prio=4, limits={'server': 1, 'rack': 2}),
+                   _ap([1, 1], aff='idx', prio=8, limits={'server': 1, 'rack': 2})],
+        groups={}, apps=['a1', 'a2', 'a3', 'a4', 'a5', 'a6', 'a7']),
+    # the same with roomy servers: limits, not capacity, are what is scarce
+    'evict2': dict(
+        dims=2, racks={'r1': ['s1', 's2'], 'r2': ['s3', 's4']}, pods={'p1': ['r1', 'r2']},
+        sprofiles=[_sp([3, 3])],
+        server_init={'s1': 1, 's2': 1, 's3': 1, 's4': 1},
+        allocs={'x': _al()},
+        aprofiles=[_ap([1, 1], aff='low', prio=1),
+                   _ap([1, 1], aff='idx', prio=4, limits={'server': 1, 'rack': 2}),
+                   _ap([1, 1], aff='idx', prio=8, limits={'server': 1, 'rack': 2}),
+                   _ap([1, 1], aff='web', prio=3, limits={'server': 1}),
+                   _ap([1, 1], aff='web', prio=9, limits={'server': 1})],
         groups={}, apps=['a1', 'a2', 'a3', 'a4', 'a5', 'a6', 'a7']),
     # identities: grow, shrink, delete, blacklist, schedule-once
     'identity': dict(
@@ -342,7 +358,20 @@ def gen_evict(scn, rng):
     rng.shuffle(apps)
     k = rng.randrange(2, 4)
     fillers, late = apps[:-k], apps[-k:]
-    h = [('Submit', [a, rng.choice(low)]) for a in fillers] + [('Cycle', [])]
+    pairs = [(i + 1, j + 1) for i, p in enumerate(profs) for j, q in enumerate(profs)
+             if p['aff'] == q['aff'] and p['limits'] and p['limits'] == q['limits'] and p['prio'] < q['prio']]
+    if pairs and rng.random() < 0.35:
+        # limit pressure instead of capacity pressure: the servers have room, the LIMITS are
+        # used up by lower-priority instances of the same affinity
+        lo, hi = rng.choice(pairs)
+        return ([('Submit', [a, lo]) for a in fillers] + [('Cycle', [])]
+                + [('Submit', [a, hi]) for a in late] + [('Cycle', []), ('Cycle', [])])
+    top = max(p['prio'] for p in profs)
+    mid = [i + 1 for i, p in enumerate(profs) if lowp + 1 < p['prio'] < top]
+    # (mostly low-priority fillers; now and then one that is itself limited, so that a
+    # later, higher-priority instance of the SAME affinity has to take its place)
+    h = [('Submit', [a, rng.choice(mid) if mid and rng.random() < 0.3 else rng.choice(low)])
+         for a in fillers] + [('Cycle', [])]
     main = rng.choice(high)
     for a in late:
         h.append(('Submit', [a, main if rng.random() < 0.75 else rng.choice(high)]))
